@@ -4,6 +4,7 @@ from vf import common, shrink as shr
 
 common.use_repo()
 from pydsol.core.streams import MersenneTwister      # noqa: E402
+import pydsol.core.streams as _streams_mod            # noqa: E402
 
 PROPERTY = "C12"
 LEVEL = "exploration"
@@ -66,6 +67,12 @@ def generate(seed, tier, idx=0):
              for _ in range(k)]
     if k > 1 and rng.random() < 0.4:
         seeds[1] = seeds[0]         # equal seeds on purpose
+    clock0 = None
+    if rng.random() < 0.12:
+        # the documented no-seed form MersenneTwister(): the seed is taken from the
+        # wall clock (virtual here) and must behave like any other current seed
+        seeds[rng.randrange(k)] = None
+        clock0 = rng.choice([0.0, 1000.0, 1.7e9 + rng.random() * 1e6, rng.random() * 1e9])
     ops = []
     n = rng.choice([3, 5, 8, 12, 20, 30, 50, 80])
     if rng.random() < 0.01:
@@ -102,7 +109,10 @@ def generate(seed, tier, idx=0):
             ops.append([s, "save"])
         else:
             ops.append([s, "restore", rng.random()])
-    return {"kind": "history", "seeds": seeds, "ops": ops}
+    case = {"kind": "history", "seeds": seeds, "ops": ops}
+    if clock0 is not None:
+        case["clock0"] = clock0
+    return case
 
 
 def draw(st, op):
@@ -126,9 +136,43 @@ def check_value(op, v):
     return None
 
 
+class _FakeTime:
+    """Virtual wall clock at the stream module's `time` seam."""
+
+    def __init__(self, t):
+        self.t = t
+
+    def time(self):
+        return self.t
+
+    def sleep(self, dt):
+        self.t += dt
+
+
+def _unseeded(clock0):
+    real = _streams_mod.time
+    _streams_mod.time = _FakeTime(clock0)
+    try:
+        return MersenneTwister()
+    finally:
+        _streams_mod.time = real
+
+
 def run_history(case):
-    seeds = case["seeds"]
-    subj = [MersenneTwister(s) for s in seeds]
+    seeds = list(case["seeds"])
+    subj = []
+    for j, s in enumerate(seeds):
+        if s is None:
+            st = _unseeded(case.get("clock0", 0.0) + j)
+            sd = st.seed()
+            if type(sd) is not int or st.original_seed() != sd:
+                return ("seed-getter", "MersenneTwister() reports seed() = %r, "
+                        "original_seed() = %r" % (sd, st.original_seed())), \
+                    {"reset_or_restore_after_draws": False, "draws_after": False, "draws": 0}
+            seeds[j] = sd
+            subj.append(st)
+        else:
+            subj.append(MersenneTwister(s))
     shadow = [MersenneTwister(s) for s in seeds]
     cur_seed = list(seeds)                 # what reset() refers to
     lin_seed = list(seeds)                 # lineage: the stream behaves like a fresh
@@ -165,6 +209,9 @@ def run_history(case):
             if subj[s].seed() != op[2]:
                 return ("seed-getter", "after set_seed(%d) seed() returns %r"
                         % (op[2], subj[s].seed())), info
+            if subj[s].original_seed() != seeds[s]:
+                return ("seed-getter", "original_seed() changed from %r to %r after "
+                        "set_seed" % (seeds[s], subj[s].original_seed())), info
         elif name == "reset":
             subj[s].reset()
             shadow[s] = MersenneTwister(cur_seed[s])
